@@ -317,8 +317,17 @@ def check_names(form, name, shape):
         except AttributeError:
             out.append(("names/value", "%s: .%s is missing" % (where, k)))
         want = next(kk for kk, vv in m.items() if vv == v)
-        if e[equal_copy(v)] != want:
-            out.append(("names/reverse_lookup", "%s: reverse lookup of %r -> %r, expected %r" % (where, v, e[equal_copy(v)], want)))
+        try:
+            got = e[equal_copy(v)]
+        except Exception as ex:   # noqa: BLE001
+            got = "raised %s: %s" % (type(ex).__name__, ex)
+        if got != want:
+            out.append(("names/reverse_lookup", "%s: reverse lookup of %r -> %r, expected %r" % (where, v, got, want)))
+    try:
+        if e[12345] != "":
+            out.append(("names/reverse_lookup", "%s: reverse lookup of a value nobody carries -> %r" % (where, e[12345])))
+    except Exception as ex:   # noqa: BLE001
+        out.append(("names/reverse_lookup", "%s: reverse lookup of a value nobody carries raised %s: %s" % (where, type(ex).__name__, ex)))
     return out
 
 
@@ -491,7 +500,7 @@ def run_partition(part, tier, seed):
     vals = values(b["values"])
     if part[0] == "names":
         for form in ("kw", "dict"):
-            for name in PARAM_LIKE_NAMES + NAMES:
+            for name in PARAM_LIKE_NAMES + NAMES + ["SPC.4", "A.B", "READ.10", "a..b", ".", "A.__class__", "x.y.z", "B.real"]:
                 for shape in ("single", "pair", "nested"):
                     case = ["names", form, name, shape]
                     acc.case(case, nontrivial=True, key=tuple(case))
